@@ -70,6 +70,21 @@ class C16(Check):
             prefp = [x['name'] for x in self._profiles if x.get('doc_pref')] or ['nexus']
             out.append({'kind': 'subs', 'profile': rng.choice(prefp),
                         'pref': rng.choice([None, 'netconf', 'xmlagent', 'zz', 'ünï', ' netconf', 'netconf ', 'xmlagent\n', 'Netconf', '\tnetconf', 'net conf'])})
+        # several SSH connects from one process to the SAME host and port, with different profiles / preferred names and servers that
+        # accept different names: each connect asks for the candidates of ITS handler, in that order, up to the first accepted one
+        sub_profiles = [x['name'] for x in self._profiles if len(x['subs']) > 1] or ['nexus']
+        for i in range(6 if tier == 'quick' else 120):
+            conns = []
+            for j in range(rng.choice([2, 3])):
+                conns.append({'profile': rng.choice(sub_profiles + ['default']), 'pref': rng.choice([None, None, 'netconf', 'xmlagent', 'zz']),
+                              'accept_at': rng.choice([0, 0, 1, 1, 2])})
+            out.append({'kind': 'subseq', 'conns': conns})
+        # the caller's own argument objects: shared between connects (module-level constants in scripts), they are never changed, and a
+        # manager built from them behaves the same whatever was built from them before
+        profs = [x['name'] for x in self._profiles]
+        for i in range(8 if tier == 'quick' else 200):
+            out.append({'kind': 'argsafe', 'profiles': [rng.choice(profs) for _ in range(rng.choice([2, 3, 4]))],
+                        'ignore': rng.choice([['*custom pattern*'], ['exact message'], [], ['a*', '*b']]), 'i': i})
         return out
 
     def search(self, tier, rng, broken):
@@ -115,6 +130,29 @@ class C16(Check):
             if isinstance(a, functools.partial):
                 return {'cls': a.args[0].__module__ + '.' + a.args[0].__name__}
             return {'cls': None}
+        if k == 'subseq':
+            from impl import sshmock
+            res = []
+            for c in case['conns']:
+                dp = {} if c['pref'] is None else {'ssh_subsystem_name': c['pref']}
+                want = list(manager.make_device_handler(dict(dp, name=c['profile'])).get_ssh_subsystem_names())
+                subs = [i == c['accept_at'] for i in range(len(want))]
+                r = sshmock.run_connect({'verify': False, 'known': 'a', 'pinned': 'a', 'cb': None, 'profile': c['profile'], 'negotiates': True, 'auths': [True],
+                                         'subs': subs, 'device_params': dp, 'host': 'device.example', 'port': 830})
+                res.append({'asked': r['sub_names'], 'candidates': want, 'result': r['result']})
+            return {'conns': res}
+        if k == 'argsafe':
+            import copy
+            from impl.rpcstub import StubSession
+            errors_params = {'ignore_errors': list(case['ignore'])}
+            snap = copy.deepcopy(errors_params)
+            seen = []
+            for prof in case['profiles']:
+                dh = manager.make_device_handler({'name': prof}, errors_params.get('ignore_errors'))
+                fresh = manager.make_device_handler({'name': prof}, list(case['ignore']))
+                seen.append({'profile': prof, 'exempt': [bool(dh.is_rpc_error_exempt(x)) for x in SAMPLES + case['ignore']],
+                             'exempt_fresh': [bool(fresh.is_rpc_error_exempt(x)) for x in SAMPLES + case['ignore']]})
+            return {'seen': seen, 'args_unchanged': errors_params == snap, 'args_now': str(errors_params)[:200]}
         if k == 'subs':
             dp = {'name': case.get('profile', 'nexus')}
             if case['pref'] is not None:
@@ -194,6 +232,21 @@ class C16(Check):
 
     def oracle(self, case, io):
         k = case['kind']
+        if k == 'subseq':
+            for n, (c, r) in enumerate(zip(case['conns'], io['conns'])):
+                want = r['candidates'][:c['accept_at'] + 1]
+                if r['asked'] != want:
+                    return ('C16:subsystem-requests-depend-on-earlier-connect', 'connect #%d (%s, preferred %r) to the same host:port asked the server for %s; its own handler\'s '
+                            'candidates are %s (accepted at position %d); earlier connects: %s' % (n + 1, c['profile'], c['pref'], r['asked'], r['candidates'], c['accept_at'], case['conns'][:n]))
+            return None
+        if k == 'argsafe':
+            if not io['args_unchanged']:
+                return ('C16:caller-arguments-changed', 'errors_params handed to %s was changed by the library: now %s (given ignore_errors=%s)' % (case['profiles'], io['args_now'], case['ignore']))
+            for s_ in io['seen']:
+                if s_['exempt'] != s_['exempt_fresh']:
+                    return ('C16:interference:shared-arguments', 'a %s handler built from an errors_params object used for %s before exempts different errors than one built from a fresh copy' % (
+                        s_['profile'], case['profiles']))
+            return None
         if k == 'subs':
             lst = io['subs']
             n = case.get('profile', 'nexus')
@@ -250,7 +303,7 @@ class C16(Check):
         return None
 
     def nontrivial(self, case, io):
-        return case['kind'] in ('profile', 'history', 'iso', 'userhandler')
+        return case['kind'] in ('profile', 'history', 'iso', 'userhandler', 'subseq', 'argsafe')
 
     def extra_coverage(self):
         return {'gen_tables': {'Gen/Profiles.lean': len(getattr(self, '_profiles', [])), 'Gen/Isolation.lean': len(getattr(self, '_iso', []))}}
